@@ -2,25 +2,38 @@
     the cases the harness (harness/cmd/c19) ran on the real code.  No proofs.
     [mismatches]: model vs implementation.  [monitor_failures]: the property
     itself evaluated on the implementation's observations alone. *)
-From Teleport Require Import Base.Bytes Base.Outcome Base.Fmt Base.AbiSchema Gen.KeysGen Gen.AbiSchemaGen
+From Teleport Require Import Base.Bytes Base.Outcome Base.Fmt Base.AbiSchema Gen.KeysGen Gen.KeysIterGen Gen.AbiSchemaGen
   Model.Keys Model.Abi.
 Local Open Scope N_scope.
 
 (** * Case records *)
 
+(** [cl_eth]: (root, header hash, height) entries of an eth client; [cl_raw]: raw
+    metadata keys imported through SetAllClientMetadata (written last) *)
 Record cl_spec := { cl_name : bytes; cl_type : nat (* 0 tm, 1 bsc, 2 eth *); cl_heights : list height;
-                    cl_signers : list height; cl_pending : bool }.
+                    cl_signers : list height; cl_pending : bool;
+                    cl_eth : list (bytes * bytes * N); cl_raw : list bytes }.
 
 Record iter_spec := { is_clients : list cl_spec; is_commit : list triple; is_acks : list triple;
-                      is_receipts : list triple; is_nextseq : list triple; is_relayers : list bytes }.
+                      is_receipts : list triple; is_nextseq : list triple; is_relayers : list bytes;
+                      is_bypath : list (bytes * bytes) }.
 
-Record cl_obs := { co_keys : list bytes; co_ptime : nat * list bytes; co_tm_asc : nat * list height;
-                   co_evm_asc : nat * list height; co_eth_asc : nat * list height; co_signers : nat * list height }.
+(** a stored entry: (key, value); a recorded write: (tag, entry) with tag 1
+    processed time, 2 iteration key, 3 recent signer, 4 pending validators,
+    5 eth header index, 6 eth root main, 7 raw import *)
+Definition entry := (bytes * bytes)%type.
+
+Record cl_obs := { co_keys : list bytes; co_ptime : nat * list entry; co_tm_asc : nat * list height;
+                   co_evm_asc : nat * list height; co_eth_asc : nat * list height; co_signers : nat * list height;
+                   co_written : list (nat * entry);
+                   co_exp_tm : nat * list entry; co_exp_bsc : nat * list entry; co_exp_eth : nat * list entry;
+                   co_signers_left : nat * list bytes (* after DeleteAllSigner on a branch of the store *) }.
 
 Record iter_obs := { io_base : list bytes; io_keys : list bytes; io_cons : nat * list (bytes * height);
                      io_clients : nat * list bytes; io_per : list cl_obs;
                      io_commit : nat * list triple; io_acks : nat * list triple; io_receipts : nat * list triple;
-                     io_nextseq : nat * list triple; io_relayers : nat * nat }.
+                     io_nextseq : nat * list triple; io_relayers : nat * nat;
+                     io_allmeta : nat * list (bytes * list entry); io_bypath : list (nat * list triple) }.
 
 Inductive ccase :=
 | CAbi (ty : nat) (fields : list fval) (enc_class : nat) (enc : bytes) (dec_class : nat) (dec : list fval)
@@ -120,8 +133,10 @@ Definition client_keys (c : cl_spec) : list bytes :=
       | 0%nat => map (fun h => p ++ tm_processed_time_key h) (cl_heights c) ++ map (fun h => p ++ tm_iteration_key h) (cl_heights c)
       | 1%nat => map (fun h => p ++ bsc_recent_signer_key h) (cl_signers c)
                  ++ (if cl_pending c then [p ++ bsc_PrefixPendingValidators] else [])
-      | _ => []
-      end).
+      | _ => flat_map (fun e => let '(root, hash, n) := e in
+                                [p ++ eth_header_index_key hash n; p ++ eth_root_main_key root n]) (cl_eth c)
+      end)
+  ++ map (fun k => p ++ k) (cl_raw c).
 
 Definition written_keys (s : iter_spec) : list bytes :=
   flat_map client_keys (is_clients s)
@@ -160,47 +175,111 @@ Definition seen_of_outcome {A} (o : outcome A) : outcome (seen A) :=
 Definition class_list_eqb {A} (e : A -> A -> bool) (a b : nat * list A) : bool :=
   Nat.eqb (fst a) (fst b) && (negb (Nat.eqb (fst a) 0) || list_eqb e (snd a) (snd b)).
 
-Definition model_cl_obs (store : list bytes) (c : cl_spec) : cl_obs :=
-  let ks := strip_all (client_store_prefix (cl_name c)) store in
-  let cons := with_prefix host_KeyConsensusStatePrefix ks in
-  {| co_keys := ks;
-     co_ptime := run_iter (fun k => Ok (iter_processed_time k)) cons;
-     co_tm_asc := run_iter (fun k => seen_of_outcome (tm_height_from_iteration_key k)) (with_prefix tm_KeyIterateConsensusStatePrefix ks);
-     co_evm_asc := run_iter iter_evm_consensus cons;
-     co_eth_asc := run_iter iter_evm_consensus cons;
-     co_signers := run_iter (fun k => seen_of_outcome (bsc_signer_height_parse k)) (with_prefix bsc_PrefixKeyRecentSingers ks) |}.
+(** what the model predicts for one client store: KEYS only (the values are the monitors' business) *)
+Record cl_model := { cm_keys : list bytes; cm_ptime : nat * list bytes; cm_tm_asc : nat * list height;
+                     cm_evm_asc : nat * list height; cm_eth_asc : nat * list height; cm_signers : nat * list height;
+                     cm_signers_del : nat;
+                     cm_exp_tm : list bytes; cm_exp_bsc : list bytes; cm_exp_eth : list bytes }.
 
-Definition cl_obs_diff (m o : cl_obs) : list nat :=
-  (if list_eqb bytes_eqb (co_keys m) (co_keys o) then [] else [10%nat])
-  ++ (if class_list_eqb bytes_eqb (co_ptime m) (co_ptime o) then [] else [13%nat])
-  ++ (if class_list_eqb height_eqb (co_tm_asc m) (co_tm_asc o) then [] else [14%nat])
-  ++ (if class_list_eqb height_eqb (co_evm_asc m) (co_evm_asc o) then [] else [15%nat])
-  ++ (if class_list_eqb height_eqb (co_eth_asc m) (co_eth_asc o) then [] else [16%nat])
-  ++ (if class_list_eqb height_eqb (co_signers m) (co_signers o) then [] else [17%nat]).
+Definition client_store_keys (store : list bytes) (name : bytes) : list bytes :=
+  strip_all (client_store_prefix name) store.
 
-Fixpoint zip_diff (ms os : list cl_obs) : list nat :=
+Definition model_cl_obs (store : list bytes) (c : cl_spec) : cl_model :=
+  let ks := client_store_keys store (cl_name c) in
+  (* the keys each Go iterator visits: its REGENERATED prefix (Gen/KeysIterGen.v) *)
+  let under (l : list iter_prefix) := keys_with_prefixes (prefixes_of l) ks in
+  {| cm_keys := ks;
+     cm_ptime := run_iter (fun k => Ok (iter_processed_time k)) (under iterprefix_tm_IterateProcessedTime);
+     cm_tm_asc := run_iter (fun k => seen_of_outcome (tm_height_from_iteration_key k)) (under iterprefix_tm_IterateConsensusStateAscending);
+     cm_evm_asc := run_iter iter_evm_consensus (under iterprefix_bsc_IterateConsensusStateAscending);
+     cm_eth_asc := run_iter iter_evm_consensus (under iterprefix_eth_IterateConsensusStateAscending);
+     cm_signers := run_iter (fun k => seen_of_outcome (bsc_signer_height_parse k)) (under iterprefix_bsc_GetRecentSigners);
+     cm_signers_del := fst (run_iter (fun k => seen_of_outcome (bsc_signer_height_parse k)) (under iterprefix_bsc_DeleteAllSigner));
+     cm_exp_tm := tm_export_keys ks; cm_exp_bsc := bsc_export_keys ks; cm_exp_eth := eth_export_keys ks |}.
+
+Definition keys_of (o : nat * list entry) : nat * list bytes := (fst o, map fst (snd o)).
+
+Definition no_raw (c : cl_spec) : bool := match cl_raw c with [] => true | _ => false end.
+
+Definition cl_obs_diff (c : cl_spec) (m : cl_model) (o : cl_obs) : list nat :=
+  (if list_eqb bytes_eqb (cm_keys m) (co_keys o) then [] else [10%nat])
+  ++ (if class_list_eqb bytes_eqb (cm_ptime m) (keys_of (co_ptime o)) then [] else [13%nat])
+  ++ (if class_list_eqb height_eqb (cm_tm_asc m) (co_tm_asc o) then [] else [14%nat])
+  ++ (if class_list_eqb height_eqb (cm_evm_asc m) (co_evm_asc o) then [] else [15%nat])
+  ++ (if class_list_eqb height_eqb (cm_eth_asc m) (co_eth_asc o) then [] else [16%nat])
+  ++ (if class_list_eqb height_eqb (cm_signers m) (co_signers o) then [] else [17%nat])
+  ++ (if class_list_eqb bytes_eqb (0%nat, cm_exp_tm m) (keys_of (co_exp_tm o)) then [] else [23%nat])
+  ++ (if class_list_eqb bytes_eqb (0%nat, cm_exp_bsc m) (keys_of (co_exp_bsc o)) then [] else [24%nat])
+  ++ (if class_list_eqb bytes_eqb (0%nat, cm_exp_eth m) (keys_of (co_exp_eth o)) then [] else [25%nat])
+  (* DeleteAllSigner on the keys the builders wrote: every signer entry is deleted (key -> height -> key is exact);
+     with raw imports it stops at the first malformed key: compared by outcome class only *)
+  ++ (if no_raw c
+      then (if class_list_eqb bytes_eqb (0%nat, []) (co_signers_left o) then [] else [28%nat])
+      else (if Nat.eqb (cm_signers_del m) (fst (co_signers_left o)) then [] else [28%nat])).
+
+Fixpoint zip_diff3 (cs : list cl_spec) (ms : list cl_model) (os : list cl_obs) : list nat :=
+  match cs, ms, os with
+  | [], [], [] => []
+  | c :: cs', m :: ms', o :: os' => cl_obs_diff c m o ++ zip_diff3 cs' ms' os'
+  | _, _, _ => [10%nat]
+  end.
+
+(** clients in the order of GetAllGenesisClients: sorted by chain name *)
+Fixpoint insert_client (c : cl_spec) (l : list cl_spec) : list cl_spec :=
+  match l with
+  | [] => [c]
+  | x :: r => match bytes_cmp (cl_name c) (cl_name x) with
+              | Gt => x :: insert_client c r
+              | _ => c :: l
+              end
+  end.
+Definition sort_clients (l : list cl_spec) : list cl_spec := fold_right insert_client [] l.
+
+Definition export_of_type (ty : nat) (ks : list bytes) : list bytes :=
+  match ty with 0%nat => tm_export_keys ks | 1%nat => bsc_export_keys ks | _ => eth_export_keys ks end.
+
+(** ClientKeeper.GetAllClientMetadata: per client (sorted), ExportMetadata of its own type; clients without metadata are omitted *)
+Definition model_allmeta (store : list bytes) (cls : list cl_spec) : list (bytes * list bytes) :=
+  flat_map (fun c => match export_of_type (cl_type c) (client_store_keys store (cl_name c)) with
+                     | [] => []
+                     | ks => [(cl_name c, ks)]
+                     end) (sort_clients cls).
+
+Definition name_keys_eqb (a b : bytes * list bytes) : bool := bytes_eqb (fst a) (fst b) && list_eqb bytes_eqb (snd a) (snd b).
+
+(** packet keeper GetAllPacketCommitmentsByPath(src, dst): prefix iteration; the
+    returned states carry the ARGUMENTS src, dst and the sequence parsed from the key *)
+Definition model_bypath (store : list bytes) (sd : bytes * bytes) : nat * list triple :=
+  let (c, ts) := run_iter (fun k => seen_of_outcome (iterate_hashes_parse k))
+                          (with_prefix (commitment_path_prefix (fst sd) (snd sd)) store) in
+  (c, map (fun t => {| t_src := fst sd; t_dst := snd sd; t_seq := t_seq t |}) ts).
+
+Fixpoint zip_bypath (ms os : list (nat * list triple)) : list nat :=
   match ms, os with
   | [], [] => []
-  | m :: ms', o :: os' => cl_obs_diff m o ++ zip_diff ms' os'
-  | _, _ => [10%nat]
+  | m :: ms', o :: os' => (if class_list_eqb triple_eqb m o then [] else [27%nat]) ++ zip_bypath ms' os'
+  | _, _ => [27%nat]
   end.
 
 Definition iter_mismatch (s : iter_spec) (o : iter_obs) : list nat :=
   let store := sort_keys (written_keys s ++ io_base o) in
-  let clients := with_prefix host_KeyClientStorePrefix store in
+  let under (l : list iter_prefix) := keys_with_prefixes (prefixes_of l) store in
   (if list_eqb bytes_eqb store (io_keys o) then [] else [10%nat])
-  ++ (if class_list_eqb name_height_eqb (run_iter (fun k => Ok (iter_consensus_states k)) clients) (io_cons o) then [] else [11%nat])
-  ++ (if class_list_eqb bytes_eqb (run_iter (fun k => Ok (iter_clients k)) clients) (io_clients o) then [] else [12%nat])
-  ++ zip_diff (map (model_cl_obs store) (is_clients s)) (io_per o)
-  ++ (if class_list_eqb triple_eqb (run_iter (fun k => seen_of_outcome (iterate_hashes_parse k)) (with_prefix host_KeyPacketCommitmentPrefix store)) (io_commit o) then [] else [18%nat])
-  ++ (if class_list_eqb triple_eqb (run_iter (fun k => seen_of_outcome (iterate_hashes_parse k)) (with_prefix host_KeyPacketAckPrefix store)) (io_acks o) then [] else [19%nat])
-  ++ (if class_list_eqb triple_eqb (run_iter (fun k => seen_of_outcome (iterate_hashes_parse k)) (with_prefix host_KeyPacketReceiptPrefix store)) (io_receipts o) then [] else [20%nat])
+  ++ (if class_list_eqb name_height_eqb (run_iter (fun k => Ok (iter_consensus_states k)) (under iterprefix_clientkeeper_IterateConsensusStates)) (io_cons o) then [] else [11%nat])
+  ++ (if class_list_eqb bytes_eqb (run_iter (fun k => Ok (iter_clients k)) (under iterprefix_clientkeeper_IterateClients)) (io_clients o) then [] else [12%nat])
+  ++ zip_diff3 (is_clients s) (map (model_cl_obs store) (is_clients s)) (io_per o)
+  ++ (if class_list_eqb name_keys_eqb (0%nat, model_allmeta store (is_clients s))
+                        (fst (io_allmeta o), map (fun x => (fst x, map fst (snd x))) (snd (io_allmeta o))) then [] else [26%nat])
+  ++ zip_bypath (map (model_bypath store) (is_bypath s)) (io_bypath o)
+  ++ (if class_list_eqb triple_eqb (run_iter (fun k => seen_of_outcome (iterate_hashes_parse k)) (under iterprefix_packetkeeper_IteratePacketCommitment)) (io_commit o) then [] else [18%nat])
+  ++ (if class_list_eqb triple_eqb (run_iter (fun k => seen_of_outcome (iterate_hashes_parse k)) (under iterprefix_packetkeeper_IteratePacketAcknowledgement)) (io_acks o) then [] else [19%nat])
+  ++ (if class_list_eqb triple_eqb (run_iter (fun k => seen_of_outcome (iterate_hashes_parse k)) (under iterprefix_packetkeeper_IteratePacketReceipt)) (io_receipts o) then [] else [20%nat])
   ++ (if class_list_eqb triple_eqb
          (run_iter (fun k => match parse_path k with
                              | Ok (a, b) => Ok (Got {| t_src := a; t_dst := b; t_seq := nextseq_value s a b |})
                              | Err => Err | Panic => Panic end)
-                   (with_prefix host_KeyNextSeqSendPrefix store)) (io_nextseq o) then [] else [21%nat])
-  ++ (if Nat.eqb (fst (io_relayers o)) 0 && Nat.eqb (snd (io_relayers o)) (length (with_prefix clienttypes_KeyRelayers store)) then [] else [22%nat]).
+                   (under iterprefix_packetkeeper_GetAllPacketSendSeqs)) (io_nextseq o) then [] else [21%nat])
+  ++ (if Nat.eqb (fst (io_relayers o)) 0 && Nat.eqb (snd (io_relayers o)) (length (under iterprefix_clientkeeper_GetAllRelayers)) then [] else [22%nat]).
 
 (** * Model vs implementation, one case *)
 
@@ -263,14 +342,41 @@ Definition nextseq_last (l : list triple) : list triple :=
     | t :: r => if existsb (fun u => bytes_eqb (t_src u) (t_src t) && bytes_eqb (t_dst u) (t_dst t)) r then go r else t :: go r
     end in go l.
 
+Definition entry_eqb (a b : entry) : bool := bytes_eqb (fst a) (fst b) && bytes_eqb (snd a) (snd b).
+
+(** the entries a store holds after the recorded writes: the last write of a key wins *)
+Fixpoint last_writes (w : list (nat * entry)) : list (nat * entry) :=
+  match w with
+  | [] => []
+  | x :: r => if existsb (fun y => bytes_eqb (fst (snd y)) (fst (snd x))) r then last_writes r else x :: last_writes r
+  end.
+
+Definition entries_tagged (tags : list nat) (w : list (nat * entry)) : list entry :=
+  map snd (filter (fun x => mem Nat.eqb (fst x) tags) (last_writes w)).
+
+(** The monitors of one client store use only what the implementation did and
+    returned: the heights handed to the setters, the (key, value) pairs that
+    reached the store (recorded at write time) and the iterators' results.
+    Stores with raw imports are left to the model comparison (an imported key may
+    legitimately be exported). *)
 Definition cl_monitor (c : cl_spec) (o : cl_obs) : list nat :=
+  if negb (no_raw c) then [] else
   let hs := cl_heights c in
-  (if Nat.eqb (cl_type c) 0
-   then (if Nat.eqb (fst (co_ptime o)) 0 && Nat.eqb (length (snd (co_ptime o))) (length (dedup height_eqb hs)) then [] else [45%nat])
-        ++ (if read_back height_eqb hs (co_tm_asc o) then [] else [46%nat])
-   else [])
+  let w := co_written o in
+  (* IterateProcessedTime hands out exactly the processed-time entries (key AND value) — on every store type *)
+  (if read_back entry_eqb (entries_tagged [1%nat] w) (co_ptime o) then [] else [45%nat])
+  ++ (if Nat.eqb (cl_type c) 0
+      then (if Nat.eqb (length (snd (co_ptime o))) (length (dedup height_eqb hs)) then [] else [45%nat])
+           ++ (if read_back height_eqb hs (co_tm_asc o) then [] else [46%nat])
+      else [])
   ++ (if read_back height_eqb hs (co_evm_asc o) && read_back height_eqb hs (co_eth_asc o) then [] else [47%nat])
-  ++ (if Nat.eqb (cl_type c) 1 then (if read_back height_eqb (cl_signers c) (co_signers o) then [] else [48%nat]) else []).
+  ++ (if Nat.eqb (cl_type c) 1 then (if read_back height_eqb (cl_signers c) (co_signers o) then [] else [48%nat]) else [])
+  (* ExportMetadata of each client type returns exactly the metadata entries of that type, each once *)
+  ++ (if read_back entry_eqb (entries_tagged [1%nat; 2%nat] w) (co_exp_tm o)
+         && read_back entry_eqb (entries_tagged [3%nat; 4%nat] w) (co_exp_bsc o)
+         && read_back entry_eqb (entries_tagged [5%nat; 6%nat] w) (co_exp_eth o) then [] else [53%nat])
+  (* DeleteAllSigner finds (and deletes) every signer entry: key -> height -> key is exact *)
+  ++ (if Nat.eqb (fst (co_signers_left o)) 0 && match snd (co_signers_left o) with [] => true | _ => false end then [] else [56%nat]).
 
 Fixpoint zip_monitor (cs : list cl_spec) (os : list cl_obs) : list nat :=
   match cs, os with
@@ -310,13 +416,26 @@ Definition case_monitor (c : ccase) : list nat :=
       then [] else [37%nat]
   | CIter s o =>
       let cons_written := flat_map (fun c => map (fun h => (cl_name c, h)) (cl_heights c)) (is_clients s) in
-      (if read_back name_height_eqb cons_written (io_cons o) then [] else [43%nat])
+      (* (a raw import may itself be a well-formed consensus-state key: such stores are left to the model comparison) *)
+      (if existsb (fun c => negb (no_raw c)) (is_clients s) || read_back name_height_eqb cons_written (io_cons o) then [] else [43%nat])
       ++ (if read_back bytes_eqb (map cl_name (is_clients s)) (io_clients o) then [] else [44%nat])
       ++ zip_monitor (is_clients s) (io_per o)
       ++ (if read_back triple_eqb (is_commit s) (io_commit o) then [] else [49%nat])
       ++ (if read_back triple_eqb (is_acks s) (io_acks o) then [] else [50%nat])
       ++ (if read_back triple_eqb (is_receipts s) (io_receipts o) then [] else [51%nat])
       ++ (if read_back triple_eqb (nextseq_last (is_nextseq s)) (io_nextseq o) then [] else [52%nat])
+      (* GetAllClientMetadata = the non-empty ExportMetadata results of the clients, each under its own name *)
+      ++ (let own := flat_map (fun co => let c := fst co in let o' := snd co in
+                                 let e := match cl_type c with 0%nat => co_exp_tm o' | 1%nat => co_exp_bsc o' | _ => co_exp_eth o' end in
+                                 match snd e with [] => [] | l => [(cl_name c, l)] end)
+                              (combine (is_clients s) (io_per o)) in
+          if read_back (fun a b => bytes_eqb (fst a) (fst b) && list_eqb entry_eqb (snd a) (snd b)) own (io_allmeta o) then [] else [54%nat])
+      (* the by-path iterator of (src, dst) returns exactly the commitments written for that source and destination *)
+      ++ (if forallb (fun po => let sd := fst po in
+                                read_back triple_eqb
+                                  (filter (fun t => bytes_eqb (t_src t) (fst sd) && bytes_eqb (t_dst t) (snd sd)) (is_commit s)) (snd po))
+                     (combine (is_bypath s) (io_bypath o))
+             && Nat.eqb (length (is_bypath s)) (length (io_bypath o)) then [] else [55%nat])
   end.
 
 (** key injectivity / disjointness over all PAIRS of key cases of a shard:
